@@ -167,6 +167,8 @@ Definition ex_g : grid := match run empty ops1 with Ok g => g | Raise _ => empty
 Definition ex_g1 : grid := match reorder ex_g [tok "  a 2"; tok "  a 1"] [(tok "  a 1", tok "  a 2")] with Ok g => g | Raise _ => empty end.
 Lemma ex_g1_run : reorder ex_g [tok "  a 2"; tok "  a 1"] [(tok "  a 1", tok "  a 2")] = Ok ex_g1.
 Proof. vm_compute. reflexivity. Qed.
+Lemma ok_inj {A} (a b : A) : Ok a = Ok b -> a = b.
+Proof. intro H. inversion H. reflexivity. Qed.
 Opaque ex_g ex_g1.
 Example edits_instance :
   NoDup (blist ex_g) /\ NoDup (clist ex_g) /\ pre_all ex_g ex_edits /\ (exists g', run ex_g ex_edits = Ok g') /\
@@ -181,8 +183,8 @@ Proof.
   split; [rewrite C; repeat constructor; cbn; intuition|].
   split.
   { cbn [pre_all ex_edits pre]. split.
-    - intros g' H. rewrite ex_g1_run in H. injection H as <-. rewrite B, C, B1, C1. split; [apply perm_swap|apply Permutation_refl].
-    - intros g1 H. cbn [step] in H. rewrite ex_g1_run in H. injection H as <-. split; [|intros; exact I].
+    - intros g' H. rewrite ex_g1_run in H. apply ok_inj in H. subst. rewrite B, C, B1, C1. split; [apply perm_swap|apply Permutation_refl].
+    - intros g1 H. cbn [step] in H. rewrite ex_g1_run in H. apply ok_inj in H. subst. split; [|intros; exact I].
       unfold inj_on. rewrite B1. intros i i' [<-|[<-|[]]] [<-|[<-|[]]]; vm_compute; intro E; try reflexivity; discriminate. }
   split; [eexists; vm_compute; reflexivity|].
   rewrite B. repeat split; vm_compute; auto.
